@@ -3,6 +3,7 @@ package main
 // Hash family: C06 (model hashes are content addresses) and C04 (commitment algebra, chains).
 
 import (
+	"bytes"
 	"encoding/json"
 	"fmt"
 	"os"
@@ -205,6 +206,25 @@ func hashReplay(args []string) {
 					}
 				}
 			}
+			// a value handed over by pointer, changed in place and hashed again: the hash is that of the value now
+			if m, isObj := decodeGeneric(base[0]).(map[string]interface{}); isObj && hc.Expected.Ok {
+				ptr := &m
+
+				h1, e1 := hashing.CalculateModelMultihash(ptr, mhCode(c.Code))
+				(*ptr)["added-later"] = []interface{}{1.0, "x"}
+				h2, e2 := hashing.CalculateModelMultihash(ptr, mhCode(c.Code))
+				want2 := b64(refMultihash(int(mhCode(c.Code)), refHash(int(mhCode(c.Code)), refJCSSimple(m))))
+
+				if e1 != nil || e2 != nil || h2 != want2 || h1 == h2 {
+					fail("calc-value", "a value changed in place keeps its old hash", want2, []string{h1, h2, fmt.Sprint(e1, e2)}, base[0])
+					return
+				}
+
+				if err := hashing.IsValidModelMultihash(ptr, h1); err == nil {
+					fail("valid-verdict", "the changed value validates against the hash of the unchanged one", "invalid", "valid", base[0])
+					return
+				}
+			}
 		case "valid":
 			h := hashString(c.Class, c.V, c.Alg)
 			rel := map[string]int{"same": 0, "reserialized": 1, "modified": 2}[c.Rel]
@@ -306,7 +326,8 @@ func chainReplay(args []string) {
 		rp := map[string]interface{}{"cmd": append([]string{"chain-replay"}, args...), "stdin": string(line)}
 
 		for _, kt := range kts {
-			for _, h := range []int{256, 512} {
+			// h = 0: a chain that migrates from SHA-256 (the keys of the create operation) to SHA-512 (all later keys)
+			for _, h := range []int{256, 512, 0} {
 				for _, nonce := range []bool{false, true} {
 					col.nCases++
 					k := fmt.Sprintf("chain:%s:kt=%s:h=%d:nonce=%v", shape, kt, h, nonce)
@@ -317,6 +338,21 @@ func chainReplay(args []string) {
 					}
 
 					alg := algCode(h)
+					algOfKey := func(id int) int {
+						if h != 0 {
+							return alg
+						}
+
+						if id <= 2 {
+							return sha2_256
+						}
+
+						return sha2_512
+					}
+
+					if h == 0 {
+						alg = sha2_512 // delta hashes of the migrating chain
+					}
 
 					keyOf := func(id int) *jws.JWK {
 						j := cloneJWK(pool.Get(kt, fmt.Sprintf("chain%d", id)).JWK)
@@ -383,7 +419,7 @@ func chainReplay(args []string) {
 
 					// ---- the chain as real signed requests
 					reqs := make([][]byte, len(cl.Ops))
-					commitOf := func(id int) string { return refCommitment(jwkMap(keyOf(id)), alg) }
+					commitOf := func(id int) string { return refCommitment(jwkMap(keyOf(id)), algOfKey(id)) }
 
 					for i, o := range cl.Ops {
 						delta := map[string]interface{}{
@@ -396,7 +432,7 @@ func chainReplay(args []string) {
 						}
 
 						if o.Type == "create" {
-							sd := map[string]interface{}{"deltaHash": refModelHash(delta, alg), "recoveryCommitment": commitOf(o.Nr)}
+							sd := map[string]interface{}{"deltaHash": refModelHash(delta, algOfKey(1)), "recoveryCommitment": commitOf(o.Nr)}
 							reqs[i], _ = json.Marshal(map[string]interface{}{"type": "create", "suffixData": sd, "delta": delta})
 
 							continue
@@ -405,7 +441,7 @@ func chainReplay(args []string) {
 						signer := pool.Get(kt, fmt.Sprintf("chain%d", o.Signer))
 						jwk := keyOf(o.Signer)
 						signed := map[string]interface{}{"anchorFrom": 1 + i, "anchorUntil": 3 + i}
-						req := map[string]interface{}{"type": o.Type, "didSuffix": testSuffix, "revealValue": refReveal(jwkMap(jwk), alg)}
+						req := map[string]interface{}{"type": o.Type, "didSuffix": testSuffix, "revealValue": refReveal(jwkMap(jwk), algOfKey(o.Signer))}
 
 						switch o.Type {
 						case "update":
@@ -424,7 +460,26 @@ func chainReplay(args []string) {
 
 						req["signedData"] = compactJWS(map[string]interface{}{"alg": signer.Alg}, refJCSSimple(signed), signer)
 						reqs[i], _ = json.Marshal(req)
+
+						if i%2 == 1 {
+							// (with insignificant white space: an anchored operation is whatever bytes were anchored)
+							reqs[i], _ = json.MarshalIndent(req, " ", "\t")
+						}
 					}
+
+					orig := make([][]byte, len(reqs))
+					for i := range reqs {
+						orig[i] = append([]byte(nil), reqs[i]...)
+					}
+
+					defer func() {
+						for i := range reqs {
+							if !bytes.Equal(orig[i], reqs[i]) {
+								fail("request-bytes-changed", fmt.Sprintf("operation %d: the parser wrote into the bytes it was given", i+1), string(orig[i]), string(reqs[i]))
+								return
+							}
+						}
+					}()
 
 					col.sample(map[string]interface{}{"chain": cl.Ops, "kt": kt, "h": h, "nonce": nonce, "requests": []string{string(reqs[0]), string(reqs[len(reqs)-1])}})
 
